@@ -211,10 +211,15 @@ class TraceRecorder(H.Recorder):
         def prep(md_items):
             rec.low = []
             before = rec.snapshot()
+            # the probability matrix the pick is about to use (the cached one, or computed now)
+            try:
+                p_used = [[ld_frac(x) for x in row] for row in state.prob]
+            except Exception as e:  # noqa: BLE001
+                p_used = f"error: {e!r}"
             out = o_prep(md_items)
             low = list(rec.low)
             view = rec.job_view(out)
-            op = {"kind": "prep", "low": low, "job": view, "before": before, "after": rec.snapshot()}
+            op = {"kind": "prep", "low": low, "job": view, "before": before, "after": rec.snapshot(), "P_used": p_used}
             rec.ops.append(op)
             return out
 
